@@ -1,5 +1,6 @@
 import Rbgp.Accept.Codec
 import Rbgp.Accept.Spec
+import Rbgp.C16.Stats
 namespace Rbgp.C16
 open Rbgp Rbgp.Term Rbgp.Accept Rbgp.Accept.Codec
 
@@ -9,7 +10,9 @@ def verdictStr : Spec.Verdict → String
 
 /-- mode `model`: case ↦ observation of the model;
     mode `oracle`: case TAB observation ↦ verdict of the C16 reference checker
-    (an ill-formed case must have been refused by the harness). -/
+    (an ill-formed case must have been refused by the harness);
+    mode `stats`: case TAB observation ↦ `key=1` tokens: the boundary values and branches the case
+    reaches (evidence only, see Rbgp.C16.Stats). -/
 def handler (mode : String) (line : String) : String :=
   match mode with
   | "model" =>
@@ -26,6 +29,17 @@ def handler (mode : String) (line : String) : String :=
               | some ob => verdictStr (Spec.check cs ob)
               | none => "fail step=0 clause=unparsable-observation"
           | none => if o == "(bad-case)" then "ok" else "fail step=0 clause=ill-formed-case-not-refused"
+      | _ => "(bad-line)"
+  | "stats" =>
+      match line.splitOn "\t" with
+      | [c, o] =>
+          match (parse c).bind caseOf? with
+          | some cs =>
+              if !wfCase cs then "kind.ill-formed=1" else
+              match (parse o).bind obsOf? with
+              | some ob => Stats.render (Stats.stats cs ob)
+              | none => "kind.unparsable-observation=1"
+          | none => "kind.ill-formed=1"
       | _ => "(bad-line)"
   | _ => "(bad-mode)"
 
